@@ -119,6 +119,7 @@ def tlc_ok(r, what):
 # --------------------------------------------------------------------------- harness
 def build_harness(profile):
     """cargo build of the harness against /repo's current working tree (cargo decides what is stale)."""
+    point_at_repo()
     cmd = ["cargo", "build", "--offline", "--quiet"]
     if profile == "release":
         cmd.append("--release")
@@ -130,6 +131,23 @@ def build_harness(profile):
     if p.returncode != 0:
         raise ToolError("harness build (%s) failed:\n%s" % (profile, p.stdout[-4000:]))
     return os.path.join(HARNESS, "target", profile, "sc_harness"), round(time.time() - t0, 1)
+
+def point_at_repo():
+    """harness/repo and featprobe/repo are symbolic links to the tree under test: /repo, unless VERIF_REPO names another checkout
+    (background runs of the thorough tier against a snapshot while /repo itself is being used for seeded changes)"""
+    for d in (HARNESS, os.path.join(VERIF, "featprobe")):
+        link = os.path.join(d, "repo")
+        try:
+            cur = os.readlink(link)
+        except OSError:
+            cur = None
+        if cur != REPO:
+            try:
+                if os.path.lexists(link):
+                    os.remove(link)
+                os.symlink(REPO, link)
+            except OSError as e:
+                raise ToolError("cannot point %s at %s: %s" % (link, REPO, e))
 
 def vocab_json():
     out = os.path.join(ensure(WORK), "vocab.json")
